@@ -12,6 +12,59 @@ pub struct Case {
     pub intended: Option<String>,
     /// index of the canonical member of a metamorphic pair
     pub pair_of: Option<usize>,
+    /// declaration of a `decl` case: use lines, lifetime list, (name, separator, type)
+    pub decl: Option<Decl>,
+}
+
+pub struct Decl {
+    pub uses: Vec<String>,
+    pub lifetimes: Vec<String>,
+    pub params: Vec<(String, String, String)>,
+}
+
+fn strip_ws(s: &str) -> String {
+    s.chars().filter(|c| !c.is_whitespace()).collect()
+}
+
+/// C13 on the implementation alone: sink first, then exactly the declared parameters in
+/// order with their declared types (white space is not compared), only `Content` turned into a
+/// block parameter, every use line present. Deliberately loose about formatting.
+pub fn check_header(code: &str, d: &Decl) -> Result<(), String> {
+    let end = code.find("where W: Write").ok_or("no `where W: Write` in generated code")?;
+    let head = strip_ws(&code[..end]);
+    let pos = std::cell::Cell::new(0usize);
+    let expect = |needle: String, what: &str| -> Result<(), String> {
+        match head[pos.get()..].find(&needle) {
+            Some(i) => {
+                pos.set(pos.get() + i + needle.len());
+                Ok(())
+            }
+            None => Err(format!("{what}: `{needle}` not found (in order) in the generated signature")),
+        }
+    };
+    for u in &d.uses {
+        expect(format!("{};", strip_ws(u)), "use line")?;
+    }
+    expect("pubfnt_html<".to_string(), "function")?;
+    for l in &d.lifetimes {
+        expect(format!("{l},"), "lifetime parameter")?;
+    }
+    expect("W>(".to_string(), "sink type parameter")?;
+    expect("mut_ructe_out_:W,".to_string(), "sink parameter first")?;
+    for (n, _sep, ty) in &d.params {
+        if ty == "Content" {
+            expect(format!("{n}:implFnOnce(&mutW)"), "Content parameter as block parameter")?;
+            expect(",".to_string(), "parameter separator")?;
+        } else {
+            expect(format!("{n}:{},", strip_ws(ty)), "parameter with its declared type")?;
+        }
+    }
+    // exactly the declared parameters: nothing but the return type may follow
+    let tail = &head[pos.get()..];
+    if !tail.starts_with(")->io::Result<()>") {
+        return Err(format!("unexpected text after the last declared parameter: `{}`", &tail[..tail.len().min(60)]));
+    }
+    Ok(())
 }
 
 pub fn cases(mix: &str, n: usize, seed: u64) -> Vec<Case> {
@@ -20,19 +73,28 @@ pub fn cases(mix: &str, n: usize, seed: u64) -> Vec<Case> {
     let ex_bytes: Vec<Vec<u8>> = examples.iter().map(|e| e.1.clone()).collect();
     let mut corpus = crate::corpus::load("parse");
     for c in corpus.drain(..) {
-        out.push(Case { kind: "corpus", src: c, intended: None, pair_of: None });
+        out.push(Case { kind: "corpus", src: c, intended: None, pair_of: None, decl: None });
+    }
+    if let Some(path) = mix.strip_prefix("file:") {
+        // replay: one hex-encoded source per line
+        let text = std::fs::read_to_string(path).unwrap_or_default();
+        return text
+            .lines()
+            .filter(|l| !l.trim().is_empty())
+            .map(|l| Case { kind: "replay", src: unhex(l.trim()), intended: None, pair_of: None, decl: None })
+            .collect();
     }
     let want = |k: &str| mix == "all" || mix.split(',').any(|m| m == k);
     if want("examples") {
         for (_, b) in &examples {
-            out.push(Case { kind: "example", src: b.clone(), intended: None, pair_of: None });
+            out.push(Case { kind: "example", src: b.clone(), intended: None, pair_of: None, decl: None });
         }
     }
     if want("mutate") {
         let mut r = Rng::new(seed, "mutate");
         for _ in 0..n {
             let base = r.pick(&ex_bytes).clone();
-            out.push(Case { kind: "mutate", src: gen::mutate(&mut r, &base, &ex_bytes), intended: None, pair_of: None });
+            out.push(Case { kind: "mutate", src: gen::mutate(&mut r, &base, &ex_bytes), intended: None, pair_of: None, decl: None });
         }
     }
     if want("tokens") {
@@ -41,7 +103,7 @@ pub fn cases(mix: &str, n: usize, seed: u64) -> Vec<Case> {
         for _ in 0..n {
             let mut s = r.pick(headers).to_vec();
             s.extend(gen::token_string(&mut r, 9));
-            out.push(Case { kind: "tokens", src: s, intended: None, pair_of: None });
+            out.push(Case { kind: "tokens", src: s, intended: None, pair_of: None, decl: None });
         }
     }
     if want("exhaustive") {
@@ -52,7 +114,7 @@ pub fn cases(mix: &str, n: usize, seed: u64) -> Vec<Case> {
             for i in 0..total {
                 let mut s = b"@()\n".to_vec();
                 s.extend(gen::nth_token_string(i, len, gen::TOKENS));
-                out.push(Case { kind: "exhaustive", src: s, intended: None, pair_of: None });
+                out.push(Case { kind: "exhaustive", src: s, intended: None, pair_of: None, decl: None });
             }
         }
     }
@@ -63,10 +125,10 @@ pub fn cases(mix: &str, n: usize, seed: u64) -> Vec<Case> {
             let canon = gen::print_tpl(&t, &mut Layout::Canonical);
             let intended = gen::intended_dump(&t);
             let idx = out.len();
-            out.push(Case { kind: "structured", src: canon, intended: Some(intended.clone()), pair_of: None });
+            out.push(Case { kind: "structured", src: canon, intended: Some(intended.clone()), pair_of: None, decl: None });
             for _ in 0..2 {
                 let pert = gen::print_tpl(&t, &mut Layout::Random(&mut r));
-                out.push(Case { kind: "layout", src: pert, intended: Some(intended.clone()), pair_of: Some(idx) });
+                out.push(Case { kind: "layout", src: pert, intended: Some(intended.clone()), pair_of: Some(idx), decl: None });
             }
         }
     }
@@ -81,7 +143,7 @@ pub fn cases(mix: &str, n: usize, seed: u64) -> Vec<Case> {
                     if closed {
                         s.extend(close.repeat(depth).as_bytes());
                     }
-                    out.push(Case { kind: "nesting", src: s, intended: None, pair_of: None });
+                    out.push(Case { kind: "nesting", src: s, intended: None, pair_of: None, decl: None });
                 }
             }
             for closed in [true, false] {
@@ -94,7 +156,7 @@ pub fn cases(mix: &str, n: usize, seed: u64) -> Vec<Case> {
                         s.extend(b"}");
                     }
                 }
-                out.push(Case { kind: "nesting", src: s, intended: None, pair_of: None });
+                out.push(Case { kind: "nesting", src: s, intended: None, pair_of: None, decl: None });
                 let mut s = b"@()\n".to_vec();
                 for _ in 0..depth {
                     s.extend(b"@:c({");
@@ -104,7 +166,7 @@ pub fn cases(mix: &str, n: usize, seed: u64) -> Vec<Case> {
                         s.extend(b"})");
                     }
                 }
-                out.push(Case { kind: "nesting", src: s, intended: None, pair_of: None });
+                out.push(Case { kind: "nesting", src: s, intended: None, pair_of: None, decl: None });
                 let mut s = b"@()\n".to_vec();
                 for _ in 0..depth {
                     s.extend(b"@for a in b {@match c { d => {");
@@ -114,7 +176,7 @@ pub fn cases(mix: &str, n: usize, seed: u64) -> Vec<Case> {
                         s.extend(b"}}}");
                     }
                 }
-                out.push(Case { kind: "nesting", src: s, intended: None, pair_of: None });
+                out.push(Case { kind: "nesting", src: s, intended: None, pair_of: None, decl: None });
             }
         }
     }
@@ -150,7 +212,7 @@ pub fn cases(mix: &str, n: usize, seed: u64) -> Vec<Case> {
                     s.extend(pre.as_bytes());
                     s.extend(&t);
                     s.extend(post.as_bytes());
-                    out.push(Case { kind: "text", src: s, intended: None, pair_of: None });
+                    out.push(Case { kind: "text", src: s, intended: None, pair_of: None, decl: None });
                 }
             }
         }
@@ -173,7 +235,7 @@ pub fn cases(mix: &str, n: usize, seed: u64) -> Vec<Case> {
                 }
             }
             s.extend(post.as_bytes());
-            out.push(Case { kind: "text", src: s, intended: None, pair_of: None });
+            out.push(Case { kind: "text", src: s, intended: None, pair_of: None, decl: None });
         }
     }
     if want("decl") {
@@ -186,15 +248,20 @@ pub fn cases(mix: &str, n: usize, seed: u64) -> Vec<Case> {
         let seps: &[&str] = &[": ", ":", " : ", " :", ":  ", ":\n", ":\t"];
         for _ in 0..n / 2 {
             let mut s = Vec::new();
+            let mut d = Decl { uses: vec![], lifetimes: vec![], params: vec![] };
             for _ in 0..r.below(4) {
                 s.extend(b"@");
-                s.extend(r.pick(&["use a::b", "use a::{b, c as d}", "use x::*", "use ::std::fmt", "use super::Content", "use a as b"]).as_bytes());
+                let u = *r.pick(&["use a::b", "use a::{b, c as d}", "use x::*", "use ::std::fmt", "use super::Content", "use a as b"]);
+                d.uses.push(u.to_string());
+                s.extend(u.as_bytes());
                 s.extend(b";");
                 s.extend(r.pick(&["\n", "", " ", "\n\n", "@* c *@\n"]).as_bytes());
             }
             s.extend(b"@");
             if r.chance(1, 4) {
-                s.extend(r.pick(&["<'a>", "<'a, 'b>", "<'a,'b>", "< 'a>"]).as_bytes());
+                let l = *r.pick(&["<'a>", "<'a, 'b>", "<'a,'b>", "< 'a>"]);
+                d.lifetimes = l.trim_matches(|c| c == '<' || c == '>').split(',').map(|x| x.trim().to_string()).collect();
+                s.extend(l.as_bytes());
             }
             s.extend(b"(");
             let np = r.below(9);
@@ -202,14 +269,17 @@ pub fn cases(mix: &str, n: usize, seed: u64) -> Vec<Case> {
                 if i > 0 {
                     s.extend(r.pick(&[", ", ",", ",\n  "]).as_bytes());
                 }
-                s.extend(r.pick(names).as_bytes());
-                s.extend(format!("{i}").as_bytes());
-                s.extend(r.pick(seps).as_bytes());
-                s.extend(r.pick(tys).as_bytes());
+                let name = format!("{}{i}", r.pick(names));
+                let sep = *r.pick(seps);
+                let ty = *r.pick(tys);
+                s.extend(name.as_bytes());
+                s.extend(sep.as_bytes());
+                s.extend(ty.as_bytes());
+                d.params.push((name, sep.to_string(), ty.to_string()));
             }
             s.extend(r.pick(&[")", " )", ")\n", ")\n\n"]).as_bytes());
             s.extend(b"<p>@a0</p>\n");
-            out.push(Case { kind: "decl", src: s, intended: None, pair_of: None });
+            out.push(Case { kind: "decl", src: s, intended: None, pair_of: None, decl: Some(d) });
         }
     }
     out
@@ -338,12 +408,38 @@ pub fn run(args: &crate::Args) {
                     }
                 }
                 writeln!(imp, "{ast}").unwrap();
+                if let Some(d) = &c.decl {
+                    stats.hit("header.checked");
+                    match &cr {
+                        Ok(text) => {
+                            if let Err(why) = check_header(text, d) {
+                                writeln!(
+                                    orc,
+                                    "{{\"tags\":[\"C13\"],\"kind\":\"signature\",\"case\":{i},\"src_hex\":{},\"src\":{},\"detail\":{}}}",
+                                    jstr(&hex(&c.src)),
+                                    jbytes(&c.src),
+                                    jstr(&why)
+                                )
+                                .unwrap();
+                            }
+                        }
+                        Err(_) => {
+                            writeln!(
+                                orc,
+                                "{{\"tags\":[\"C13\"],\"kind\":\"declaration-rejected\",\"case\":{i},\"src_hex\":{},\"src\":{},\"detail\":\"a declaration from the supported grammar was rejected\"}}",
+                                jstr(&hex(&c.src)),
+                                jbytes(&c.src)
+                            )
+                            .unwrap();
+                        }
+                    }
+                }
                 if let Some(want) = &c.intended {
                     stats.hit("intended.checked");
                     if &ast != want {
                         writeln!(
                             orc,
-                            "{{\"tags\":[\"C01\",\"C03\",\"C05\",\"C15\",\"C13\"],\"kind\":\"ast-not-intended\",\"case\":{i},\"src_hex\":{},\"src\":{},\"detail\":{}}}",
+                            "{{\"tags\":[\"C01\",\"C03\",\"C04\",\"C05\",\"C15\"],\"kind\":\"ast-not-intended\",\"case\":{i},\"src_hex\":{},\"src\":{},\"detail\":{}}}",
                             jstr(&hex(&c.src)),
                             jbytes(&c.src),
                             jstr(&format!("documented tree {want} but parser gave {ast}"))
